@@ -448,7 +448,19 @@ def rng_method(m, o, name, args, kw, node):
 
 # module-level constants of libraries.  numpy >= 2 (installed: 2.x) has no NAN / NaN / Inf aliases:
 # touching them raises AttributeError, which is modelled faithfully.
+def inf_value(m):
+    """numpy.inf: a symbolic constant INF; every NanRealT / metric value v is assumed to satisfy -INF < v < INF
+    where a contract says so (``infinity()`` in specifications)"""
+    if getattr(m, "_inf", None) is None:
+        m._inf = Sym(z3.Real("INF"), "real")
+    m.assume(m._inf.t > 1000000)
+    m.assumption_notes.add("numpy.inf is modelled as a constant above every finite value mentioned by the contract")
+    return m._inf
+
+
 CONSTANTS = {
+    "numpy.inf": inf_value,
+    "math.inf": inf_value,
     "numpy.nan": lambda m: NanReal(True, Fraction(0)),
     "math.nan": lambda m: NanReal(True, Fraction(0)),
     "numpy.pi": lambda m: Fraction("3.141592653589793"),
@@ -620,3 +632,8 @@ def coll_deque(m, args, kw, node):
     if args:
         return SList(m.iter_concrete(args[0], node))
     return SList()
+
+
+@ext("time.perf_counter", "monotone clock")
+def time_perf_counter(m, args, kw, node):
+    return time_time(m, args, kw, node)
